@@ -1,5 +1,6 @@
 """C10 -- UDF bridge fidelity for an independent ECMA-167 reader.  DESIGN.md section 8.10."""
 from harness import common, nsoracles, sysimg, syslevel, sysprops
+from harness.props import udfleaf
 
 MODULE = 'C10'
 RECIPES = ['udf_fid_cross', 'udf_fid_exact', 'udf_symlinks']
@@ -8,6 +9,7 @@ RECIPES = ['udf_fid_cross', 'udf_fid_exact', 'udf_symlinks']
 def oracle(b, report):
     nsoracles.oracle_c10(b, report)
     fid_oracle(b, report)
+    udfleaf.collect_from_image(b)
 
 
 def leaf_gen(ctx):
@@ -98,6 +100,7 @@ def run(ctx):
     common.proof_stage(ctx, MODULE, common.theorems_of(MODULE))
     common.setup_impl_path()
     leaf_gen(ctx)
+    udfleaf.leaf_correspondence(ctx)
     quick = ctx.tier == 'quick'
     sysprops.run_oracle(ctx, 'C10', sysprops.histories(ctx, 100 if quick else 2000, RECIPES,
                                                        dict(allow_refusals=False, link_bias=0.2, empty_bias=0.2),
@@ -114,6 +117,7 @@ def run(ctx):
         sysprops.run_oracle(ctx, 'C10', iter([(label + '+reopen', cfg, ops, sizes)]), oracle, need_reopen=False, max_shrink=1,
                             build_kwargs={'reopen_points': rp})
     flush_fid_cases(ctx)
+    udfleaf.flush_image_descs(ctx)
     ctx.cov['rule'] = ('UDF-bridge images of random histories (directories past one identifier sector, cross-namespace links, removals, '
                        'Latin-1 and UCS-2 names, symlinks with non-Latin-1 components, zero-length files) plus recipes (identifier area '
                        'filled exactly to a sector boundary with entries after it), fresh and reopened-then-edited; an independent '
